@@ -5,15 +5,19 @@
   expandDefinitions) with the iteration orders of the Go map as explicit parameters.
 
   Proved here: what a definition line contributes (nothing), which definition of a name counts (the first),
-  that text without reference syntax is untouched, that a single definition is plain `ReplaceAll`, and that for
-  definitions whose values carry no reference syntax the order of the two map loops is irrelevant as long as no
-  substitution creates a reference (`C07_flat_order_free_partial`). NOT proved: order independence for nested
-  definitions (closure of the first loop for every visiting order). That part of the property is covered by the
-  correspondence (Go's own random map order varies between executions; model uses definition order) and by the
-  permutation oracle on the implementation.
+  that text without reference syntax is untouched, that a single definition is plain `ReplaceAll`, and — for
+  definitions nested to any depth — that neither the order in which the two map loops visit the names
+  (`C07_order_free`) nor the order of the definition lines (`C07_definition_line_order_free`) changes the result,
+  and that no reference to a defined name is left (`C07_no_defined_reference_left`).
+  `C07_order_free` is stated for texts and values that are token readings (`Crs.Parser.WFToks`: a `{` outside a
+  reference is followed by an ordinary character other than `{`; names non-empty, brace-free) of an acyclic table
+  (`RankOK`). Outside that domain a substitution can create reference syntax (`{` + `{b}}`), and the result of the
+  real code does depend on the map order (`C07_order_matters_when_syntax_is_created`); the correspondence and the
+  permutation oracle are what cover the code there.
 -/
 import Crs.Parser
 import CrsProofs.Lines
+import CrsProofs.DefTokens
 namespace Crs.Props
 open Crs Crs.Pat Crs.Parser
 
@@ -112,6 +116,157 @@ theorem C07_closeVars_flat (ord : List Bytes) (vs : Vars)
           _ = vs := by simp
     rw [step]
     exact ih (fun m hm p hp => hflat m (by simp [hm]) p hp)
+
+/-! ### nested definitions: no order matters -/
+
+/-- **C07 (map iteration order, nested definitions).** For an acyclic table of definitions nested to any depth, and
+    any text, the two loops of `expandDefinitions` give the same text and the same table whatever order the Go map
+    yields the names in (`o1`, `o1'` for the first loop — every defined name is visited —, `o2`, `o2'` for the
+    second). -/
+theorem C07_order_free (rank : Bytes → Nat) (z : TVars) (ts : List Tok) (o1 o1' o2 o2' : List Bytes)
+    (hz : WFVars z) (hts : WFToks ts) (hr : RankOK rank z)
+    (hn1 : ∀ n ∈ o1, WFName n) (hn2 : ∀ n ∈ o2, WFName n)
+    (hall : ∀ k ∈ z.map Prod.fst, k ∈ o1)
+    (p1 : o1.Perm o1') (p2 : o2.Perm o2') :
+    expandDefinitions o1 o2 (render ts) (renderVars z) = expandDefinitions o1' o2' (render ts) (renderVars z) := by
+  unfold expandDefinitions
+  obtain ⟨e1, w1⟩ := closeVars_render o1 z hn1 hz
+  obtain ⟨e1', _⟩ := closeVars_render o1' z (fun n hn => hn1 n (p1.mem_iff.mpr hn)) hz
+  simp only
+  rw [e1, e1', ← closeVarsT_perm rank z hr p1]
+  rw [applyVars_render o2 _ ts hn2 w1 hts,
+      applyVars_render o2' _ ts (fun n hn => hn2 n (p2.mem_iff.mpr hn)) w1 hts,
+      applyVarsT_perm _ (closeVarsT_closed rank o1 z hr hall) ts p2]
+
+/-- **C07 (pure substitution: nothing defined is left).** When both loops visit every defined name, the resulting text
+    contains no reference to a defined name; undefined references stay as typed. -/
+theorem C07_no_defined_reference_left (rank : Bytes → Nat) (z : TVars) (ts : List Tok) (o1 o2 : List Bytes)
+    (hz : WFVars z) (hts : WFToks ts) (hr : RankOK rank z)
+    (hn1 : ∀ n ∈ o1, WFName n) (hn2 : ∀ n ∈ o2, WFName n)
+    (hall1 : ∀ k ∈ z.map Prod.fst, k ∈ o1) (hall2 : ∀ k ∈ z.map Prod.fst, k ∈ o2) :
+    ∃ out : List Tok, (expandDefinitions o1 o2 (render ts) (renderVars z)).1 = render out ∧
+      ∀ k ∈ z.map Prod.fst, Tok.ref k ∉ out := by
+  unfold expandDefinitions
+  obtain ⟨e1, w1⟩ := closeVars_render o1 z hn1 hz
+  refine ⟨applyVarsT o2 (closeVarsT o1 z) ts, ?_, ?_⟩
+  · simp only
+    rw [e1, applyVars_render o2 _ ts hn2 w1 hts]
+  · intro k hk
+    have hc := closeVarsT_closed rank o1 z hr hall1
+    have hk' : k ∈ (closeVarsT o1 z).map Prod.fst := by rw [closeVarsT_keys]; exact hk
+    exact applyVarsT_noDefinedRefs _ hc o2 [] ts (fun _ hm => by simp at hm) k (by simp [hall2 k hk]) hk'
+
+/-- non-vacuity: three definitions nested two deep, a regex quantifier `{2,3}` in a value, an undefined reference in
+    the text; every visiting order gives `x[0-9]{2,3}y!{{u}}` -/
+example :
+    let z : TVars := [(b!"a", [.lit 'x', .ref b!"b", .ref b!"c"]), (b!"b", [.lit '[', .lit '0', .lit '-', .lit '9', .lit ']', .lit '{', .lit '2', .lit ',', .lit '3', .lit '}']),
+                      (b!"c", [.lit 'y', .lit '!'])]
+    let rank : Bytes → Nat := fun n => if n = b!"a" then 1 else 0
+    WFVars z ∧ RankOK rank z ∧
+    (expandDefinitions [b!"a", b!"b", b!"c"] [b!"c", b!"a", b!"b"] (render [.ref b!"a", .ref b!"u"]) (renderVars z)).1 = b!"x[0-9]{2,3}y!{{u}}" ∧
+    (expandDefinitions [b!"c", b!"b", b!"a"] [b!"a", b!"b", b!"c"] (render [.ref b!"a", .ref b!"u"]) (renderVars z)).1 = b!"x[0-9]{2,3}y!{{u}}" := by
+  refine ⟨?_, ?_, by decide +kernel, by decide +kernel⟩
+  · intro p hp
+    simp only [List.mem_cons, List.mem_nil_iff, or_false] at hp
+    rcases hp with rfl | rfl | rfl <;> simp [WFToks, WFName]
+  · intro p hp m hm hk
+    simp only [List.mem_cons, List.mem_nil_iff, or_false] at hp
+    rcases hp with rfl | rfl | rfl <;> simp at hm <;> rcases hm with rfl | rfl <;> decide
+
+/-- outside the domain of `C07_order_free`: a value that ends in `{` creates reference syntax when it is pasted in,
+    and then the visiting order of the second loop decides the result — in the model as in the code -/
+theorem C07_order_matters_when_syntax_is_created :
+    (expandDefinitions [b!"a", b!"b"] [b!"a", b!"b"] b!"{{a}}{b}}" [(b!"a", b!"{"), (b!"b", b!"Z")]).1 ≠
+    (expandDefinitions [b!"a", b!"b"] [b!"b", b!"a"] b!"{{a}}{b}}" [(b!"a", b!"{"), (b!"b", b!"Z")]).1 := by
+  decide +kernel
+
+/-! ### the order of the definition lines -/
+
+theorem assocLookup_mem {k v : Bytes} {vs : Vars} (h : assocLookup k vs = some v) : (k, v) ∈ vs := by
+  induction vs with
+  | nil => simp [assocLookup] at h
+  | cons p vs ih =>
+    obtain ⟨k', w⟩ := p
+    simp only [assocLookup] at h
+    by_cases hk : (k' == k) = true
+    · simp only [hk, if_true, Option.some.injEq] at h
+      have : k' = k := by simpa using hk
+      subst this; subst h; simp
+    · have hk' : (k' == k) = false := by simpa using hk
+      simp only [hk', Bool.false_eq_true, if_false] at h
+      exact List.mem_cons_of_mem _ (ih h)
+
+theorem assocLookup_of_mem {k v : Bytes} {vs : Vars} (hn : (vs.map Prod.fst).Nodup) (h : (k, v) ∈ vs) :
+    assocLookup k vs = some v := by
+  induction vs with
+  | nil => simp at h
+  | cons p vs ih =>
+    obtain ⟨k', w⟩ := p
+    simp only [List.map_cons, List.nodup_cons] at hn
+    simp only [List.mem_cons, Prod.mk.injEq] at h
+    simp only [assocLookup]
+    rcases h with ⟨rfl, rfl⟩ | h
+    · simp
+    · have : k' ≠ k := by
+        intro e; subst e
+        exact hn.1 (List.mem_map.mpr ⟨(k', v), h, rfl⟩)
+      have hk' : (k' == k) = false := by simpa using this
+      simp only [hk', Bool.false_eq_true, if_false]
+      exact ih hn.2 h
+
+theorem assocLookup_perm {vs vs' : Vars} (p : vs.Perm vs') (hn : (vs.map Prod.fst).Nodup) (k : Bytes) :
+    assocLookup k vs = assocLookup k vs' := by
+  have hn' : (vs'.map Prod.fst).Nodup := (p.map Prod.fst).nodup hn
+  cases h : assocLookup k vs with
+  | some v => exact (assocLookup_of_mem hn' (p.mem_iff.mp (assocLookup_mem h))).symm
+  | none =>
+    cases h' : assocLookup k vs' with
+    | none => rfl
+    | some v =>
+      have := assocLookup_of_mem hn (p.mem_iff.mpr (assocLookup_mem h'))
+      rw [h] at this; exact absurd this (by simp)
+
+theorem closeStep_keys (vs : Vars) (n : Bytes) : (closeStep vs n).map Prod.fst = vs.map Prod.fst := by
+  unfold closeStep
+  cases assocLookup n vs with
+  | none => rfl
+  | some r => simp [List.map_map, Function.comp_def]
+
+theorem closeVars_perm_table (ord : List Bytes) {vs vs' : Vars} (p : vs.Perm vs') (hn : (vs.map Prod.fst).Nodup) :
+    (closeVars ord vs).Perm (closeVars ord vs') ∧ ((closeVars ord vs).map Prod.fst).Nodup := by
+  unfold closeVars
+  induction ord generalizing vs vs' with
+  | nil => exact ⟨p, hn⟩
+  | cons n ns ih =>
+    simp only [List.foldl_cons]
+    apply ih
+    · unfold closeStep
+      rw [← assocLookup_perm p hn n]
+      cases assocLookup n vs with
+      | none => exact p
+      | some r => exact p.map _
+    · rw [closeStep_keys]; exact hn
+
+theorem applyVars_congr (ord : List Bytes) (vs vs' : Vars) (h : ∀ k, assocLookup k vs = assocLookup k vs') (src : Bytes) :
+    applyVars ord vs src = applyVars ord vs' src := by
+  unfold applyVars
+  induction ord generalizing src with
+  | nil => rfl
+  | cons n ns ih =>
+    simp only [List.foldl_cons]
+    have : applyStep vs src n = applyStep vs' src n := by unfold applyStep; rw [h n]
+    rw [this, ih]
+
+/-- **C07 (order of the definition lines).** Writing the definitions (of distinct names) in another order — before
+    or after their uses makes no difference to the table, `C07_definition_no_entry` — gives the same text, for any
+    values whatsoever and any visiting orders. -/
+theorem C07_definition_line_order_free (o1 o2 : List Bytes) (src : Bytes) {vs vs' : Vars} (p : vs.Perm vs')
+    (hn : (vs.map Prod.fst).Nodup) :
+    (expandDefinitions o1 o2 src vs).1 = (expandDefinitions o1 o2 src vs').1 := by
+  unfold expandDefinitions
+  simp only
+  obtain ⟨pc, hc⟩ := closeVars_perm_table o1 p hn
+  exact applyVars_congr o2 _ _ (fun k => assocLookup_perm pc hc k) src
 
 /-- non-vacuity and the behaviours the property names: late definition, nested definition, undefined name -/
 example :
